@@ -186,6 +186,10 @@ func blocksWithoutCtx(fn *ssa.Function) string {
 				}
 			}
 		}
+		// filling a channel the function has just made, up to its capacity, cannot block (filledTokenChan(n))
+		if op.kind == "send" && isFreshPrefill(op) {
+			excepted = true
+		}
 		if !excepted {
 			why = "a blocking " + op.kind
 		}
@@ -418,6 +422,38 @@ func ruleTrySendOrder(c *Ctx, r *R) {
 	pf.Exits(fn, ss(0))
 	good = good && sends >= 1
 	r.ok(good, "stream.PipeSender.TrySend|closed-check-before-send", fn.Pos(), "TrySend must first check (non-blockingly) ctx, streamDone and senderDone and attempt the send only on that select's default path: a send tried first succeeds on a closed pipe with buffer space, and the receiver gets a value after it was told about the end")
+}
+
+// isFreshPrefill: a send in a counting loop `for i := 0; i < n; i++ { ch <- x }` into a channel made in the same function with
+// capacity n (the same value), with no goroutine started by the function before the loop: nobody else can hold the channel,
+// and exactly cap(ch) values are sent - the send never blocks.
+func isFreshPrefill(op chanOp) bool {
+	snd, ok := op.in.(*ssa.Send)
+	if !ok || !prefillBoundEqualsCap(op) {
+		return false
+	}
+	fn := snd.Parent()
+	mkHere := false
+	if mc, ok := resolveVal(snd.Chan).(*ssa.MakeChan); ok && mc.Parent() == fn {
+		mkHere = true
+	}
+	if !mkHere {
+		return false
+	}
+	started := false
+	instrs(fn, func(b *ssa.BasicBlock, _ int, in ssa.Instruction) {
+		switch x := in.(type) {
+		case *ssa.Go:
+			if b == snd.Block() || reaches(b, snd.Block()) {
+				started = true
+			}
+		case *ssa.Call:
+			if cal := x.Call.StaticCallee(); cal != nil && cal.Name() == "Go" && (b == snd.Block() || reaches(b, snd.Block())) {
+				started = true
+			}
+		}
+	})
+	return !started
 }
 
 func prefillBoundEqualsCap(op chanOp) bool {
